@@ -30,49 +30,100 @@ pub struct RunSpec {
     pub tier: Tier,
     pub seed: u64,
     pub index: u64,
+    /// Seed of the whole batch (VERIF_SEED).
+    pub batch_seed: u64,
     pub plan: Option<serde_json::Value>,
     pub choices: Option<Vec<u32>>,
     pub tracing: bool,
+    /// Only expand the plan (used to report a run that hung).
+    pub plan_only: bool,
 }
 
 pub type HarnessFn = fn(&RunSpec) -> RunOutput;
+
+/// A run whose thread does not come back within this many seconds is reported as a hang (a task
+/// poll that never returns cannot be preempted; the thread is abandoned).
+pub const HANG_SECS: u64 = 60;
+
+pub enum ThreadOutcome<R> {
+    Done(R),
+    Panicked(String),
+    Hung,
+}
 
 /// Runs `f` on a fresh OS thread whose `RandomState` keys derive from `hash_seed`.
 pub fn on_fresh_thread<R: Send + 'static>(
     hash_seed: u64,
     f: impl FnOnce() -> R + Send + 'static,
-) -> Result<R, String> {
-    std::thread::Builder::new()
+) -> ThreadOutcome<R> {
+    let (tx, rx) = std::sync::mpsc::channel();
+    let handle = std::thread::Builder::new()
         .stack_size(8 << 20)
         .spawn(move || {
             set_thread_hash_seed(hash_seed);
-            f()
+            let r = f();
+            let _ = tx.send(r);
         })
-        .expect("spawn run thread")
-        .join()
-        .map_err(|e| {
-            let msg = e
-                .downcast_ref::<String>()
-                .cloned()
-                .or_else(|| e.downcast_ref::<&str>().map(|s| s.to_string()))
-                .unwrap_or_else(|| "<panic>".into());
-            format!("simulator panicked outside a task poll: {msg}")
-        })
+        .expect("spawn run thread");
+    match rx.recv_timeout(Duration::from_secs(HANG_SECS)) {
+        Ok(r) => {
+            let _ = handle.join();
+            ThreadOutcome::Done(r)
+        }
+        Err(std::sync::mpsc::RecvTimeoutError::Timeout) => ThreadOutcome::Hung,
+        Err(std::sync::mpsc::RecvTimeoutError::Disconnected) => {
+            let msg = match handle.join() {
+                Err(e) => e
+                    .downcast_ref::<String>()
+                    .cloned()
+                    .or_else(|| e.downcast_ref::<&str>().map(|s| s.to_string()))
+                    .unwrap_or_else(|| "<panic>".into()),
+                Ok(()) => "run thread ended without a result".into(),
+            };
+            ThreadOutcome::Panicked(format!("simulator panicked outside a task poll: {msg}"))
+        }
+    }
 }
 
 pub fn execute(harness: HarnessFn, spec: RunSpec) -> RunOutput {
     let hash_seed = spec.seed ^ 0x6861_7368;
     let spec2 = spec.clone();
+    let empty = |plan: serde_json::Value| RunOutput {
+        violations: vec![],
+        harness_error: None,
+        stats: RunStats::default(),
+        choices: spec.choices.clone().unwrap_or_default(),
+        trace: vec![],
+        plan,
+    };
     match on_fresh_thread(hash_seed, move || harness(&spec2)) {
-        Ok(out) => out,
-        Err(e) => RunOutput {
-            violations: vec![],
-            harness_error: Some(e),
-            stats: RunStats::default(),
-            choices: vec![],
-            trace: vec![],
-            plan: spec.plan.unwrap_or(serde_json::Value::Null),
-        },
+        ThreadOutcome::Done(out) => out,
+        ThreadOutcome::Panicked(e) => {
+            let mut out = empty(spec.plan.clone().unwrap_or(serde_json::Value::Null));
+            out.harness_error = Some(e);
+            out
+        }
+        ThreadOutcome::Hung => {
+            // Regenerate the plan for the report (generation is cheap and deterministic).
+            let plan = match &spec.plan {
+                Some(p) => p.clone(),
+                None => {
+                    let mut s3 = spec.clone();
+                    s3.plan_only = true;
+                    harness(&s3).plan
+                }
+            };
+            let mut out = empty(plan);
+            out.choices = Vec::new();
+            out.violations.push(Violation::new(
+                "liveness.poll-never-returns",
+                &[Prop::C06, Prop::C15, Prop::C11, Prop::C09, Prop::C14, Prop::C19, Prop::C05],
+                format!(
+                    "the run did not finish within {HANG_SECS} s of wall-clock time: some future's poll never returns (busy loop inside one poll), so a single-threaded executor makes no progress"
+                ),
+            ));
+            out
+        }
     }
 }
 
@@ -208,9 +259,11 @@ pub fn run_batch(cfg: &BatchCfg, known: &[KnownFinding]) -> BatchOut {
                     tier: cfg.tier,
                     seed,
                     index,
+                    batch_seed: cfg.base_seed,
                     plan: cfg.directed.get(i as usize).cloned(),
                     choices: None,
                     tracing: want_sample,
+                    plan_only: false,
                 };
                 let res = execute(cfg.harness, spec.clone());
 
@@ -329,9 +382,12 @@ pub fn confirm(harness: HarnessFn, prop: Prop, tier: Tier, f: &Found, tracing: b
         tier,
         seed: f.seed,
         index: f.index,
+        batch_seed: 0,
         plan: Some(f.plan.clone()),
-        choices: Some(f.choices.clone()),
+        // An empty choice list means "the schedule derived from the plan's seed".
+        choices: if f.choices.is_empty() { None } else { Some(f.choices.clone()) },
         tracing,
+        plan_only: false,
     };
     let res = execute(harness, spec);
     if let Some(e) = res.harness_error {
